@@ -20,7 +20,7 @@ LEVEL = "fault_enumeration"
 RULE = (
     "Crash points of the cache write = byte-length prefixes of the index document. For each image "
     "of a level-1.1 and a level-1.5 product and each location (user cache dir, adjacent): quick: "
-    "k in {0, 1, len-1, len}, every JSON token boundary of the first 60 tokens and 60 "
+    "k in {0, 1, len-1, len}, every JSON token boundary of the first 60 tokens, every cut at or inside a non-ASCII character of the document and 60 "
     "Hypothesis-drawn k; thorough: EVERY k in 0..len (bulk through the image reader, every 25th "
     "through open_alos2). Plus real kills: a child process runs open_alos2(create_cache=True) "
     "with a byte-wise writer installed by the harness and SIGKILLs itself at a generated offset "
@@ -34,7 +34,7 @@ RULE = (
 )
 ASSUMPTIONS = [
     "crash = process death or a still-running writer; power loss (page cache vs disk ordering) cannot be produced here",
-    "the index document is ASCII JSON, so every strict prefix is a torn state the write can leave behind",
+    "torn states are byte prefixes of the index document as written (docs[image] re-encoded as UTF-8); the level-1.5 product sits under a non-ASCII path",
 ]
 BUDGET = {"quick": 150, "thorough": 2400}
 JOBS = {"quick": 4, "thorough": 16}
@@ -53,7 +53,10 @@ def base(level):
          "leader": {"map_projection": level != "1.1"}}
     )
     files, info = product.build_product(spec)
-    prod = harness.Materialised(files, "local").__enter__()  # kept for the life of the process
+    # the level-1.5 product lives under a directory with non-ASCII characters (the index stores
+    # the product root, so its text - and every torn prefix of it - depends on the path)
+    name = None if level == "1.1" else f"sc\u00e8ne-\u30c7\u30fc\u30bf-\u00e9t\u00e9-{os.getpid()}"
+    prod = harness.Materialised(files, "local", name=name).__enter__()  # kept for the life of the process
     images = info["names"]["sar_imagery"]
     ref = harness.flatten(harness.open_tree(prod.url, use_cache=False))
     harness.open_tree(prod.url, use_cache=False, create_cache=True)
@@ -65,7 +68,8 @@ def base(level):
             raise SetupViolation(harness.disc(
                 "cache-not-at-documented-location", "create_cache=True",
                 f"<user_cache_dir>/xarray-ceos-alos2/<sha256(root)>/{image}.index", found))
-        docs[image] = p.read_text()
+        # one character per BYTE of the file (latin-1 view): lengths and cut positions are bytes
+        docs[image] = p.read_bytes().decode("latin-1")
     for image in images:
         c07.user_index_path(prod.url, image).unlink(missing_ok=True)
     return prod, images, ref, docs
@@ -84,6 +88,19 @@ def clean(prod, images):
             p.unlink(missing_ok=True)
         with contextlib.suppress(OSError):
             c07.user_index_path(prod.url, image).parent.rmdir()
+
+
+def doc_json(doc):
+    return json.loads(doc.encode("latin-1").decode("utf-8"))
+
+
+def non_ascii_cuts(doc):
+    """every cut position before, inside and after a multi-byte character of the document"""
+    out = set()
+    for i, ch in enumerate(doc):
+        if ord(ch) >= 0x80:
+            out.update({i, i + 1})
+    return out
 
 
 def token_boundaries(text, limit=60):
@@ -149,7 +166,7 @@ def after_fault(prod, images, ref, docs, what, through="open_alos2", target_imag
                 out.append(harness.disc("repair-incomplete", what, f"complete index for {image}", "missing"))
             continue
         try:
-            if json.loads(p.read_text()) != json.loads(docs[image]):
+            if json.loads(p.read_text()) != doc_json(docs[image]):
                 out.append(harness.disc("repair-incomplete", what, "index equal to the reference document", "different document"))
         except ValueError as e:
             out.append(harness.disc("repair-incomplete", what, "complete index", harness.exc_text(e)))
@@ -204,7 +221,7 @@ def run_case(case):
                 k = len(doc) - case["k"]
             p = location_path(prod, image, case["location"])
             p.parent.mkdir(parents=True, exist_ok=True)
-            p.write_bytes(doc.encode()[:k])
+            p.write_bytes(doc.encode("latin-1")[:k])
             what = f"prefix at {case['location']}"
             torn = {image} if k < len(doc) else set()
             if case["location"] == "user":
@@ -241,7 +258,7 @@ def run_case(case):
             p = location_path(prod, image, case["location"])
             p.parent.mkdir(parents=True, exist_ok=True)
             text_file = pathlib.Path(harness.scratch_root()) / f"doc-{os.getpid()}.json"
-            text_file.write_text(doc)
+            text_file.write_bytes(doc.encode("latin-1"))
             proc = subprocess.Popen([sys.executable, "-c", WRITER_SCRIPT, str(p), str(text_file), str(cut)],
                                     stdin=subprocess.PIPE, stdout=subprocess.PIPE, text=True)
             try:
@@ -330,7 +347,7 @@ def enum_cases(tier):
             n = len(docs[image])
             for location in ("user", "adjacent"):
                 if tier == "quick":
-                    ks = sorted({0, 1, n - 1, n, *token_boundaries(docs[image])})
+                    ks = sorted({0, 1, n - 1, n, *token_boundaries(docs[image]), *non_ascii_cuts(docs[image])})
                     if not (i == 0 or location == "user"):
                         ks = ks[:12]
                     for k in ks:
